@@ -54,27 +54,31 @@ def applyBlocks (K : Core σ) (w : Nat) (s : σ) (blocks : List Bytes) : List By
   let r := genBlocks K w blocks.length s
   (List.zipWith xorB blocks r.1, r.2)
 
-/-- `StreamCipherCore::try_apply_keystream_partial` (provided method, consumes the core; `none` = Err, nothing written).
-    The number of blocks compared with `remaining_blocks()` is computed with `%` (sic, cipher 0.5.0-pre.8 `core_api.rs`), and a
-    buffer of exactly one block takes the tail path. -/
-def applyPartial (K : Core σ) (w : Nat) (s : σ) (data : Bytes) : Option Bytes :=
+/-- the check at the top of `StreamCipherCore::try_apply_keystream_partial`: the number of blocks compared with
+    `remaining_blocks()` is computed with `%` (sic, cipher 0.5.0-pre.8 `core_api.rs`). `true` = proceed. -/
+def partialCheck (K : Core σ) (s : σ) (n : Nat) : Bool :=
+  match K.remaining s with
+  | none => true
+  | some rem =>
+    let blocks := if n % K.bs = 0 then n % K.bs else n % K.bs + 1
+    !(blocks > rem)
+
+/-- the body after the check: whole blocks through `apply_keystream_blocks_inout` when the buffer is longer than one
+    block, the rest (a buffer of exactly one block takes this path too) through a zero-padded block copy. -/
+def applyPartialUnchecked (K : Core σ) (w : Nat) (s : σ) (data : Bytes) : Bytes :=
   let bs := K.bs
-  let n := data.length
-  let ok := match K.remaining s with
-    | none => true
-    | some rem =>
-      let blocks := if n % bs = 0 then n % bs else n % bs + 1
-      !(blocks > rem)
-  if !ok then none
+  let blocks := if data.length > bs then chunks bs data else []
+  let tail := if data.length > bs then chunksTail bs data else data
+  let r := applyBlocks K w s blocks
+  if tail.length = 0 then r.1.flatten
   else
-    let blocks := if n > bs then chunks bs data else []
-    let tail := if n > bs then chunksTail bs data else data
-    let r := applyBlocks K w s blocks
-    if tail.length = 0 then some r.1.flatten
-    else
-      let padded := tail ++ zeros (bs - tail.length)
-      let r2 := applyBlocks K w r.2 [padded]
-      some (r.1.flatten ++ r2.1.flatten.take tail.length)
+    let padded := tail ++ zeros (bs - tail.length)
+    let r2 := applyBlocks K w r.2 [padded]
+    r.1.flatten ++ r2.1.flatten.take tail.length
+
+/-- `StreamCipherCore::try_apply_keystream_partial` (provided method, consumes the core; `none` = Err, nothing written). -/
+def applyPartial (K : Core σ) (w : Nat) (s : σ) (data : Bytes) : Option Bytes :=
+  if partialCheck K s data.length then some (applyPartialUnchecked K w s data) else none
 
 /-! ### StreamCipherCoreWrapper -/
 
